@@ -45,12 +45,21 @@ pub fn alphabet() -> Vec<Build> {
         Build::Str("message-set-segments", ".message \"hello\"\nlbl: .set s = 3\nldi r19, s\n.dseg\nv: .byte 3\n.eseg\n.db 9\n.cseg\n.dw v, lbl\n"),
         Build::Str("error-directive", "nop\n.error \"stop\"\n"),
         Build::File("file-with-includes", "c17main.asm"),
+        // the same include name, found through different directories, with different contents
+        Build::File("file-inc-dir-A", "dirA/c17mainA.asm"),
+        Build::File("file-inc-dir-B", "dirB/c17mainB.asm"),
         Build::Str("label-and-pc", "lbl: nop\nrjmp lbl\n.dw pc\n.set s = 5\n.dw s\n"),
     ]
 }
 
 fn write_files(dir: &Path) {
     let _ = std::fs::create_dir_all(dir.join("inc"));
+    for (d, v) in [("dirA", 0x11), ("dirB", 0x22)] {
+        let _ = std::fs::create_dir_all(dir.join(d).join("sub"));
+        std::fs::write(dir.join(d).join(format!("c17main{}.asm", &d[3..])), ".includepath \"sub\"\n.include \"c17shared.inc\"\nldi r22, shared_k\n.include \"c17local.inc\"\n").unwrap();
+        std::fs::write(dir.join(d).join("sub/c17shared.inc"), format!(".equ shared_k = {}\n.message \"shared {}\"\n", v, d)).unwrap();
+        std::fs::write(dir.join(d).join("c17local.inc"), format!("ldi r23, {}\n", v + 1)).unwrap();
+    }
     std::fs::write(dir.join("c17main.asm"), ".includepath \"inc\"\n.include \"c17defs.inc\"\nldi r20, from_inc\nldi r21, val\n.message \"from main\"\n").unwrap();
     std::fs::write(dir.join("inc/c17defs.inc"), ".equ from_inc = 7\n.equ val = 9\n.macro m\nldi r17, 3\n.endm\nm\n").unwrap();
 }
@@ -173,6 +182,7 @@ pub fn run(tier: Tier) -> i32 {
         ("def-t-use", "use-t-undefined"), ("message-set-segments", "error-directive"), ("message-set-segments", "label-and-pc"), ("file-with-includes", "use-val-undefined"),
         ("file-with-includes", "equ-val-1"), ("file-with-includes", "call-m-undefined"), ("label-and-pc", "no-device-lds"), ("equ-val-1", "equ-val-1"),
         ("message-set-segments", "message-set-segments"), ("device-tiny20-lds", "device-tiny20-lds"),
+        ("file-with-includes", "file-with-includes"), ("file-inc-dir-A", "file-inc-dir-B"), ("file-inc-dir-A", "file-inc-dir-A"), ("file-inc-dir-B", "file-with-includes"),
     ];
     for (a, b) in pairs {
         configs.push(vec![vec![idx(a)], vec![idx(b)]]);
